@@ -326,6 +326,12 @@ func CalculateRewards(
 		// Normalize share
 		normalizedShare := rawShare / totalShare
 		totalPoolRewards := uint64(float64(pots.Rewards) * normalizedShare)
+		// float64 has 53 bits of precision: for large pots the product can
+		// round up past what is left of the pot. Never hand out more than
+		// remains, so the adjustment below is never negative and cannot wrap.
+		if remaining := pots.Rewards - totalDistributed; totalPoolRewards > remaining {
+			totalPoolRewards = remaining
+		}
 		poolRewardAmounts[poolID] = totalPoolRewards
 		totalDistributed += totalPoolRewards
 	}
@@ -466,6 +472,10 @@ func distributePoolRewards(
 				totalPoolRewards-poolCost,
 			) * (margin + (1.0-margin)*ownerStakeRatio),
 		)
+		// Guard against float rounding above the amount being split
+		if operatorRewards > totalPoolRewards {
+			operatorRewards = totalPoolRewards
+		}
 	} else {
 		// If no stake, operator gets all rewards above cost
 		operatorRewards = totalPoolRewards
@@ -491,6 +501,10 @@ func distributePoolRewards(
 						stakeholderRewardsTotal,
 					),
 				)
+				// Guard against float rounding above what is left to assign
+				if reward > stakeholderRewardsTotal-assigned {
+					reward = stakeholderRewardsTotal - assigned
+				}
 				delegatorRewards[stakeKey] = reward
 				assigned += reward
 			}
